@@ -159,7 +159,11 @@ func cmdCheck(args []string) int {
 		return 2
 	}
 	eng, err := LoadEngine(repoDir, loadPatterns())
-	replayDir := filepath.Join(verifDir, "replays", id)
+	outDir := verifDir
+	if d := os.Getenv("HVC_OUT"); d != "" {
+		outDir = d
+	}
+	replayDir := filepath.Join(outDir, "replays", id)
 	os.MkdirAll(replayDir, 0755)
 	if err != nil {
 		// the tree does not load (type error etc.): cannot decide anything
@@ -356,9 +360,9 @@ func cmdCheck(args []string) int {
 	if len(samples) == 0 {
 		ev["coverage"].(map[string]any)["samples"] = []map[string]any{{"note": "no obligation discharged"}}
 	}
-	os.MkdirAll(filepath.Join(verifDir, "evidence"), 0755)
+	os.MkdirAll(filepath.Join(outDir, "evidence"), 0755)
 	b, _ := json.MarshalIndent(ev, "", " ")
-	os.WriteFile(filepath.Join(verifDir, "evidence", id+".json"), b, 0644)
+	os.WriteFile(filepath.Join(outDir, "evidence", id+".json"), b, 0644)
 	fmt.Printf("%s: %d obligations, %d discharged, %d known findings, %d undecided, %d violations (%.1fs)\n", id, nObl, nDis, nKnown, nUndec, len(violations), time.Since(t0).Seconds())
 	if len(violations) > 0 {
 		return 1
